@@ -566,7 +566,7 @@ class SymExec(object):
                     args.append(E(a))
             kws = tuple((kw.arg, E(kw.value)) for kw in n.keywords)
             if kws and all(k is not None for k, _ in kws) and not any(a_[0] == 'star' for a_ in args):
-                sig = self.signature(f)
+                sig = self.record_fields(f) or self.signature(f)
                 if sig is not None:
                     args, kws = _positional(sig, args, kws)
             t = ('call', f, tuple(args), kws)
@@ -772,6 +772,29 @@ class SymExec(object):
             return None
         return fd
 
+    def _class_named(self, name):
+        if self.modtree is None:
+            return None
+        for s_ in self.modtree.body:
+            if isinstance(s_, ast.ClassDef) and s_.name == name:
+                return s_
+        return self.imported(name, kinds=(ast.ClassDef,))
+
+    def record_fields(self, f):
+        """field names, in declaration order, of the record class (annotated fields, no hand-written __init__) that a
+        call target names; None for anything else"""
+        if f[0] != 'name':
+            return None
+        cls = self._class_named(f[1])
+        if cls is None:
+            return None
+        if any(isinstance(s_, ast.FunctionDef) and s_.name in ('__init__', '__new__') for s_ in cls.body):
+            return None
+        fields = [s_.target.id for s_ in cls.body if isinstance(s_, ast.AnnAssign) and isinstance(s_.target, ast.Name)]
+        bases = [src(b) for b in cls.bases]
+        is_record = any('NamedTuple' in b for b in bases) or any('dataclass' in src(d) for d in cls.decorator_list)
+        return fields if fields and is_record else None
+
     def signature(self, f):
         """positional parameter names of the repository function / method a call target denotes (receiver removed), for
         turning keyword arguments into their positional spelling; None when the target is not a known definition"""
@@ -789,6 +812,13 @@ class SymExec(object):
                 scope = getattr(scope, '_parent', None)
             if fd is None:
                 fd = self.imported(f[1])
+            if fd is None:
+                cls_ = self._class_named(f[1])
+                if cls_ is not None:
+                    for s_ in cls_.body:
+                        if isinstance(s_, ast.FunctionDef) and s_.name == '__init__':
+                            fd = s_
+                            drop = 1
         elif f[0] == 'attr' and f[1][0] == 'name':
             owner = None
             if f[1][1] in ('self', 'cls') and self.cls is not None:
@@ -1630,6 +1660,14 @@ def record_cond(st, c, pol, node):
         return
     st.conds.append((c, pol, node))
     st.events.append(('branch', c, pol, node))
+
+
+def argof(call, name, index):
+    """argument of a call term by keyword name or, failing that, by position"""
+    for k, v in call[3]:
+        if k == name:
+            return v
+    return call[2][index] if 0 <= index < len(call[2]) else None
 
 
 def terms_of(st):
